@@ -248,7 +248,7 @@ theorem validated_preserves_protected :
   | o :: rest, kvs, d', hv, ha => by
     obtain ⟨hv1, hv2⟩ := verdict_cons o rest hv
     simp only [Lib.applyAll, List.foldlM_cons, bind, R.bind, Lib.applyGuarded] at ha
-    by_cases hg : Lib.targetsOwnSource o = true
+    by_cases hg : Lib.targetsOwnSource o (Json.obj kvs) = true
     · simp [hg] at ha
     simp only [hg, Bool.false_eq_true, if_false] at ha
     cases h1 : Lib.applyOp (Json.obj kvs) o with
